@@ -337,8 +337,7 @@ class Interp2(Interp):
         selfv = self.st.env.get("self")
         if cls == "TagAttrDict" and isinstance(selfv, SAdt) and selfv.sort == "AttrList":
             if meth == "__init__" and not pos and not kw:
-                self.writeback(ast.Name("self", ast.Load()), SAdt("AttrList", self.C("ANil")), node)
-                return SNone()
+                return SNone()          # dict.__init__() without arguments leaves the (new, empty) dict as it is
             if meth == "__setitem__":
                 k = self.coerce_param(pos[0], "Str")
                 v = self.coerce_param(pos[1], "AttrVal")
